@@ -2,7 +2,8 @@
 // workers, compiled from /repo's working tree) on every case of the case file (argv[1]) and prints one canonical
 // line per case, in the format of ocaml/C06_driver.ml:
 //     keys=<result keys> ord=<original indices | -> win=<non-empty merge windows in position order | -> leak=<n> err=<n>
-// case:  <elem:int|pair|trk> <S|U> <E|X> <L|G> <p> <oversampling> <k1,k2,...|->
+// case:  <elem:int|pair|trk> <S|U> <E|X> <L|G> <p> <oversampling> <k1,k2,...|-> [<variant, default avk5>]
+// (variants: see call_sort below; -DC06_SET=0|1|2 selects which instantiations this executable contains)
 //   int  : plain int keys (trivial type)
 //   pair : (key, original index) + the id of the thread that assigned the slot last and a per-slot assignment
 //          counter: gives the write footprint of the merge phase (one writer per position, contiguous windows)
@@ -16,6 +17,7 @@
 #include <atomic>
 #include <cstdio>
 #include <cstdlib>
+#include <deque>
 #include <fstream>
 #include <functional>
 #include <iostream>
@@ -107,9 +109,21 @@ template <> int make_elem<int>(int k, int) { return k; }
 template <> Pair make_elem<Pair>(int k, int i) { return Pair(k, i); }
 template <> Trk make_elem<Trk>(int k, int i) { return Trk(k, i); }
 
-std::string windows(const std::vector<int>&) { return "-"; }
-std::string windows(const std::vector<Trk>&) { return "-"; }
-std::string windows(const std::vector<Pair>& v) {
+template <typename C> typename C::value_type* pick_begin(C& v, std::true_type) { return v.empty() ? nullptr : &v[0]; }
+template <typename C> typename C::iterator pick_begin(C& v, std::false_type) { return v.begin(); }
+// containers may copy / relocate elements while they are filled: start every case with clean writer tags
+template <typename C> void reset_tags(C&, int*) {}
+template <typename C> void reset_tags(C&, Trk*) {}
+template <typename C> void reset_tags(C& v, Pair*) {
+    for (auto& x : v) { x.writer = std::this_thread::get_id(); x.writes = 0; }
+}
+template <char IterK, typename C>
+auto begin_of(C& v) -> typename std::conditional<IterK == 'p', typename C::value_type*, typename C::iterator>::type {
+    return pick_begin(v, std::integral_constant<bool, IterK == 'p'>());
+}
+template <typename C> std::string windows_of(const C&, int*) { return "-"; }
+template <typename C> std::string windows_of(const C&, Trk*) { return "-"; }
+template <typename C> std::string windows_of(const C& v, Pair*) {
     // every position assigned exactly once, by a worker thread; maximal runs of equal writer = windows
     std::vector<int> w;
     const std::thread::id me = std::this_thread::get_id();
@@ -124,8 +138,41 @@ std::string windows(const std::vector<Pair>& v) {
     return join(w);
 }
 
+// stateful comparator without default constructor (cannot be produced by Comparator())
 template <typename T>
-std::string run_case(bool stable, bool sampling, bool greater, size_t p, size_t os, const std::vector<int>& keys) {
+struct NdcLess {
+    const bool* greater;
+    explicit NdcLess(const bool* g) : greater(g) {}
+    bool operator()(const T& a, const T& b) const { return *greater ? key_of(b) < key_of(a) : key_of(a) < key_of(b); }
+};
+
+// One API variant = container / iterator kind, comparator kind, entry point, number of arguments passed.
+//   entry  'a' = tlx::parallel_mergesort / tlx::stable_parallel_mergesort, 'b' = tlx::parallel_mergesort_base<Stable>
+//   iter   'v' = std::vector<T>::iterator, 'p' = T*, 'd' = std::deque<T>::iterator
+//   cmp    'k' = KeyLess (aggregate with state), 'n' = NdcLess (no default constructor), 'l' = lambda closure,
+//          '-' = none passed (Comparator() = std::less<T> = the element's operator<)
+//   nargs  2 = (begin, end), 3 = + comp, 4 = + num_threads, 5 = + mwmsa; arguments not passed take their defaults
+//          (std::thread::hardware_concurrency() threads, MWMSA_DEFAULT = MWMSA_EXACT)
+template <bool Stable, char Entry, int NArgs, typename It, typename Cmp>
+void call_sort(It b, It e, Cmp cmp, size_t p, tlx::MultiwayMergeSplittingAlgorithm a) {
+    if constexpr (Entry == 'b') {
+        if constexpr (NArgs == 3) tlx::parallel_mergesort_base<Stable>(b, e, cmp);
+        else if constexpr (NArgs == 4) tlx::parallel_mergesort_base<Stable>(b, e, cmp, p);
+        else tlx::parallel_mergesort_base<Stable>(b, e, cmp, p, a);
+    } else if constexpr (Stable) {
+        if constexpr (NArgs == 3) tlx::stable_parallel_mergesort(b, e, cmp);
+        else if constexpr (NArgs == 4) tlx::stable_parallel_mergesort(b, e, cmp, p);
+        else tlx::stable_parallel_mergesort(b, e, cmp, p, a);
+    } else {
+        if constexpr (NArgs == 3) tlx::parallel_mergesort(b, e, cmp);
+        else if constexpr (NArgs == 4) tlx::parallel_mergesort(b, e, cmp, p);
+        else tlx::parallel_mergesort(b, e, cmp, p, a);
+    }
+}
+
+template <typename T, bool Stable, char Entry, char IterK, char CmpK, int NArgs>
+std::string run_case(bool sampling, bool greater, size_t p, size_t os, const std::vector<int>& keys) {
+    using C = typename std::conditional<IterK == 'd', std::deque<T>, std::vector<T> >::type;
     tlx::parallel_multiway_merge_oversampling = os;
     auto& L = MtLedger::get();
     size_t live_before; long err_before;
@@ -133,20 +180,28 @@ std::string run_case(bool stable, bool sampling, bool greater, size_t p, size_t 
     std::string out;
     long leak = 0, errs = 0;
     {
-        std::vector<T> v;
-        v.reserve(keys.size());
+        C v;
         for (size_t i = 0; i < keys.size(); ++i) v.push_back(make_elem<T>(keys[i], static_cast<int>(i)));
+        reset_tags(v, static_cast<T*>(nullptr));
         size_t live_in;
         { std::lock_guard<std::mutex> g(L.m); live_in = L.live.size(); }
-        KeyLess<T> cmp{greater};
         tlx::MultiwayMergeSplittingAlgorithm a = sampling ? tlx::MWMSA_SAMPLING : tlx::MWMSA_EXACT;
-        if (stable) tlx::stable_parallel_mergesort(v.begin(), v.end(), cmp, p, a);
-        else tlx::parallel_mergesort(v.begin(), v.end(), cmp, p, a);
+        auto bg = begin_of<IterK>(v); auto en = bg + static_cast<std::ptrdiff_t>(v.size());
+        if constexpr (CmpK == '-') {
+            if constexpr (Stable) tlx::stable_parallel_mergesort(bg, en); else tlx::parallel_mergesort(bg, en);
+        } else if constexpr (CmpK == 'n') {
+            call_sort<Stable, Entry, NArgs>(bg, en, NdcLess<T>(&greater), p, a);
+        } else if constexpr (CmpK == 'l') {
+            auto lam = [greater](const T& x, const T& y) { return greater ? key_of(y) < key_of(x) : key_of(x) < key_of(y); };
+            call_sort<Stable, Entry, NArgs>(bg, en, lam, p, a);
+        } else {
+            call_sort<Stable, Entry, NArgs>(bg, en, KeyLess<T>{greater}, p, a);
+        }
         { std::lock_guard<std::mutex> g(L.m); leak = static_cast<long>(L.live.size()) - static_cast<long>(live_in); }
         std::vector<int> ks, is;
         for (const T& x : v) ks.push_back(key_of(x));
-        std::string win = windows(v);
-        if (!stable) {
+        std::string win = windows_of(v, static_cast<T*>(nullptr));
+        if (!Stable) {
             // canonicalise what the property leaves open: order of the indices inside a group of equal keys
             // (only if the keys are in order; otherwise the raw arrangement is shown)
             std::vector<std::pair<int, int> > kv;
@@ -180,7 +235,8 @@ std::string run_case(bool stable, bool sampling, bool greater, size_t p, size_t 
 } // namespace
 
 int main(int argc, char** argv) {
-    if (argc < 2) { fprintf(stderr, "usage: %s casefile\n", argv[0]); return 2; }
+    if (argc < 2) { fprintf(stderr, "usage: %s casefile | --hw\n", argv[0]); return 2; }
+    if (std::string(argv[1]) == "--hw") { printf("%u\n", std::thread::hardware_concurrency()); return 0; }
     std::ifstream in(argv[1]);
     std::string line;
     while (std::getline(in, line)) {
@@ -195,11 +251,29 @@ int main(int argc, char** argv) {
             std::string tok;
             while (std::getline(ks, tok, ',')) keys.push_back(atoi(tok.c_str()));
         }
+        std::string variant = "avk5";
+        ss >> variant;
         bool stable = stab == "S", sampling = split == "X", greater = cmp == "G";
-        std::string out;
-        if (elem == "int") out = run_case<int>(stable, sampling, greater, p, os, keys);
-        else if (elem == "pair") out = run_case<Pair>(stable, sampling, greater, p, os, keys);
-        else out = run_case<Trk>(stable, sampling, greater, p, os, keys);
+        std::string out = "?";
+        const std::string sel = elem + ":" + stab + ":" + variant;
+#define V(E, S, T, ST, EN, IT, CM, NA) \
+        if (sel == std::string(E) + ":" + S + ":" + std::string(1, EN) + std::string(1, IT) + std::string(1, CM) + #NA) \
+            out = run_case<T, ST, EN, IT, CM, NA>(sampling, greater, p, os, keys);
+#if !defined(C06_SET) || C06_SET == 0
+        // the main path: public entry points, std::vector iterators, all five arguments, three element types
+        V("int", "S", int, true, 'a', 'v', 'k', 5) V("int", "U", int, false, 'a', 'v', 'k', 5)
+        V("pair", "S", Pair, true, 'a', 'v', 'k', 5) V("pair", "U", Pair, false, 'a', 'v', 'k', 5)
+        V("trk", "S", Trk, true, 'a', 'v', 'k', 5) V("trk", "U", Trk, false, 'a', 'v', 'k', 5)
+#elif C06_SET == 1
+        V("pair", "S", Pair, true, 'a', 'p', 'k', 5) V("pair", "U", Pair, false, 'a', 'd', 'k', 5)
+        V("pair", "S", Pair, true, 'a', 'v', 'n', 5) V("pair", "U", Pair, false, 'a', 'v', 'l', 5)
+        V("trk", "S", Trk, true, 'a', 'd', 'n', 5) V("int", "U", int, false, 'a', 'v', '-', 2)
+#else
+        V("pair", "S", Pair, true, 'a', 'v', 'k', 4) V("pair", "U", Pair, false, 'a', 'v', 'k', 3)
+        V("pair", "S", Pair, true, 'a', 'v', '-', 2) V("pair", "U", Pair, false, 'b', 'v', 'k', 5)
+        V("pair", "S", Pair, true, 'b', 'd', 'l', 4) V("trk", "U", Trk, false, 'b', 'p', 'n', 3)
+#endif
+#undef V
         std::cout << out << std::endl; // flushed: the last line printed identifies a crashing case
     }
     return 0;
